@@ -390,6 +390,29 @@ pub fn run_case(c: &CurveCase, tag: &str, with_oracle: bool, out: &mut Out) {
         if let Some(b) = oracle(c, &cur, out) {
             nontrivial |= b;
         }
+        // the same request made of a slider path that was first read without a length
+        // (what a decoded slider is when its length is edited afterwards)
+        if let (Ok(cv), Some(_)) = (&cur, c.len) {
+            let pts = to_points(&c.pts);
+            let (mode, len) = (mode_of(c.mode), c.len);
+            let via = guarded(move || {
+                let mut sp = rosu_map::section::hit_objects::SliderPath::new(mode, pts, None);
+                let _ = sp.curve().dist();
+                *sp.expected_dist_mut() = len;
+                let k = sp.curve();
+                (k.path().to_vec(), k.lengths().to_vec())
+            });
+            out.oracle_checks += 1;
+            if let Ok((p, l)) = via {
+                let same = p.len() == cv.path().len()
+                    && p.iter().zip(cv.path()).all(|(a, b)| a.x.to_bits() == b.x.to_bits() && a.y.to_bits() == b.y.to_bits())
+                    && l.len() == cv.lengths().len()
+                    && l.iter().zip(cv.lengths()).all(|(a, b)| a.to_bits() == b.to_bits() || (a.is_nan() && b.is_nan()));
+                if !same {
+                    out.fail("", &describe(c), "slider path read once without a length, then given the requested length: its curve is not the curve computed for that length");
+                }
+            }
+        }
     }
     out.case(line.0, res.0, describe(c), nontrivial);
 }
